@@ -1193,6 +1193,11 @@ def r_test_probable_prime(i, args, kw, st, node):
 def r_strxor(i, args, kw, st, node):
     if kw.get("output") is not None or len(args) > 2:
         return None
+    if len(args) == 2 and isinstance(args[0], (bytes, bytearray)) and \
+            isinstance(args[1], (bytes, bytearray)) and len(args[0]) == len(args[1]):
+        return bytes(a ^ b for a, b in zip(args[0], args[1]))
+    if len(args) == 2 and isinstance(args[0], (bytes, bytearray)) and isinstance(args[1], int):
+        return bytes(a ^ args[1] for a in args[0])
     n = _blen(args[0]) if args else None
     return ABytes(n, "bytes")
 
